@@ -20,7 +20,7 @@ RULE = ('inner texts = generated SELECTs + hostile literal/variable/number/paren
         'literal, variable, nested parentheses, comment or newline; distinct by (embedding, inner text)')
 ASSUMPTIONS = ['"up to whitespace and comments": compared after an independent tokenizer drops both',
                'inner texts have balanced parentheses and contain only characters the mindsdb lexer knows']
-BUDGET = {'quick': (8, 70), 'thorough': (16, 400)}
+BUDGET = {'quick': (8, 240), 'thorough': (16, 1800)}
 
 EMBED = {
     'create_model': ('CREATE MODEL m1 FROM db1 ({x}) PREDICT y', lambda t: [t.query_str]),
